@@ -130,7 +130,8 @@ var nastyIdents = []string{
 	"`x`", "`a``b`", "`a\"b`", "`a'b`", "`--`", "`/*`", "`;`", "`a b`", "`\"`", "`\"\"`", "`x\" , (select 1) as \"y`", "`é`", "`\\`", "`a\\`",
 	"`$left`", "`select`", "``````",
 }
-var intLits = []string{"0", "1", "7", "42", "007", "0x1F", "0XaB", "100000000000", "18446744073709551615"}
+var intLits = []string{"0", "1", "7", "42", "007", "0x1F", "0XaB", "100000000000", "18446744073709551615",
+	"0x7fffffffffffffff", "0x8000000000000000", "0XFFFFFFFFFFFFFFFF", "9223372036854775808", "0x0000000000000000ff", "0xdeadbeefcafe"}
 var floatLits = []string{"1.5", ".5", "1.", "1e3", "1E-2", "0.0", "00.25", "2.e1"}
 
 func isFloatLit(t string) bool { return strings.ContainsAny(t, ".eE") && !strings.HasPrefix(strings.ToLower(t), "0x") }
@@ -194,6 +195,7 @@ func genContentCases(tier string, emit func(op string, fields ...string)) {
 	}
 	for _, s := range []string{
 		"T | render `x' , (select 1) as y, '`", "T | render t with (`a\" b` = 'v\\'w')", "T | where a == 'a\\\\'", "`a\\` | count",
+		"T | where x > -0XFFFFFFFFFFFFFFFF and y == 'keep'", "T | extend d = a - -0x8000000000000000", "T | take 0x8000000000000000", "T | where a[0xffffffffffffffff] == -0x8000000000000001",
 		"T | project `x\"y` = 'it\\'s'", "T | as `a\"b` | count", "T | extend 'a;b'", "T | summarize count() by `k\"`",
 	} {
 		emit("COMPILE", hexs(s), "-")
